@@ -91,8 +91,16 @@ def layout(draw, lo, hi, maxfiles, zero_ok=True, big_ok=True, dense=False):
 
 def title_st(full=False):
     body = st.lists(st.one_of(st.integers(0x20, 0x7E), st.integers(0x21, 0x7E)), min_size=0, max_size=12)
-    return st.builds(lambda b, top: bytes((c | 0x80) if (top >> i) & 1 else c for i, c in enumerate(b)),
-                     body, st.one_of(st.just(0), st.integers(0, 4095)))
+
+    def mk(b, top, nul):
+        t = bytearray((c | 0x80) if (top >> i) & 1 else c for i, c in enumerate(b))
+        if nul is not None and t:
+            # a NUL inside the 12 bytes with stale bytes of an earlier, longer title behind it: the title is a C
+            # string split over the two catalogue sectors and ends at its first NUL (dfs_catalog.cc convert_title)
+            t[nul % len(t)] = 0
+        return bytes(t)
+    return st.builds(mk, body, st.one_of(st.just(0), st.integers(0, 4095)),
+                     st.one_of(st.none(), st.none(), st.none(), st.integers(0, 11)))
 
 
 @st.composite
